@@ -152,9 +152,11 @@ lemma('toolbox_xor_reverse', lemma_xor_reverse, params=dict(x=BytesN(16), y=Byte
 
 
 def lemma_prand():
-    p = crypto.generate_prand()
-    assert len(p) == 3
-    assert p[2] // 64 == 1  # two most significant bits 0b01: resolvable private address
+    # (repeated: the native replay of a counter-model draws real random bytes)
+    for _ in range(16):
+        p = crypto.generate_prand()
+        assert len(p) == 3
+        assert p[2] // 64 == 1  # two most significant bits 0b01: resolvable private address
 
 
 lemma('toolbox_generate_prand', lemma_prand, params={}, **TOOLBOX)
